@@ -287,6 +287,24 @@ pub fn run(ctx: &mut Ctx) -> Result<(), Violation> {
         ctx.stage("b3-states-within-short-depth-x-all-ops", true, r)?;
     }
 
+    if ctx.tier == Tier::Thorough {
+        // b = 3: EVERY pair of reference states (256 x 256) x every next operation
+        let paths = reachable_paths(3, 2, 20);
+        let ops = all_ops(3, 2);
+        if paths.len() != 256 * 256 {
+            return Err(Violation::new(format!("HARNESS: reached {} of 65536 state pairs for b = 3", paths.len()), json!({})));
+        }
+        let n = (paths.len() * ops.len()) as u64;
+        let r = par_exhaustive(ctx, n, |i, st| {
+            let p = &paths[i as usize / ops.len()];
+            let mut h = p.clone();
+            h.push(ops[i as usize % ops.len()].clone());
+            record(3, &h, st);
+            check_history(3, 2, &h)
+        });
+        ctx.stage("all-state-pairs-x-all-ops-b3", true, r)?;
+    }
+
     let cases = ctx.tier.pick(40_000, 4_000_000);
     let r = par_random(ctx, "random", cases, 130, |tape, st| {
         let mut t = Tape::new(tape);
